@@ -42,7 +42,7 @@ Extend(op) ==
 Next == \/ \E i \in Idx(Firsts) : Start(i)
         \/ Extend("select") \/ Extend("derive") \/ Extend("filter") \/ Extend("sort")
         \/ Extend("take") \/ Extend("aggregate") \/ Extend("group") \/ Extend("window")
-        \/ Extend("join") \/ Extend("append") \/ Extend("bad")
+        \/ Extend("join") \/ Extend("append") \/ Extend("exclude") \/ Extend("bad")
 
 Spec == Init /\ [][Next]_vars
 
@@ -68,7 +68,8 @@ StepLaws ==
   [][ (st'.status = "ok" /\ st.status = "ok") =>
         LET s == prog'[Len(prog')] IN
         \A d \in Idx(st.W) :
-          /\ s.op \in {"select", "derive", "sort"} => Lens(st', d) = Lens(st, d)
+          /\ s.op \in {"select", "derive", "sort", "exclude"} => Lens(st', d) = Lens(st, d)
+          /\ s.op = "exclude" => Len(st'.frame) < Len(st.frame)
           /\ s.op = "filter" => \A n \in Lens(st', d) : \E m \in Lens(st, d) : n <= m
           /\ s.op = "take" => Lens(st', d) = { Max2(0, Min2(n, s.hi) - s.lo + 1) : n \in Lens(st, d) }
           /\ s.op = "aggregate" => Lens(st', d) = {1}
